@@ -24,7 +24,7 @@ def run(ck):
     maxsize = 20000 if ck.tier == "quick" else 300000
     i = 0
     schedules = set()
-    while not ck.out_of_time():
+    while ck.more(min_cases=120):
         i += 1
         if not ck.mine(i):
             rng.random()
